@@ -28,7 +28,7 @@ CHECKS = {
     'C10': dict(level='model_checking', technique=MC + " + exhaustive kernel-fault enumeration", engine='world-explorer',
                 text="The C09 state space with the model SAD compared with the tracked CHILD_SAs after every transition "
                      "and after a drain from every state, plus one re-execution of every transition per XFRM_MSG_NEWSA "
-                     "request with that request refused (ENOMEM, EEXIST). Also: every transition re-executed once per NEWSA / DELSA request with the netlink socket itself failing (OSError), followed by a timer sweep and a drain; and at every state of two smaller spaces what a peer other than pyikev2 may send (an authentic DELETE of any CHILD_SA on any IKE_SA held, a datagram arriving from another source address). M-del: a CHILD_SA deletion is only ever started for a reason. Plus m_sendfail (every transition re-executed once per datagram with that sendto() failing, timers, drain) and an ESP+AH connection in the give-up cases."),
+                     "request with that request refused (ENOMEM, EEXIST). Also: every transition re-executed once per NEWSA / DELSA request with the netlink socket itself failing (OSError), followed by a timer sweep and a drain; and at every state of two smaller spaces what a peer other than pyikev2 may send (an authentic DELETE of any CHILD_SA on any IKE_SA held, a datagram arriving from another source address). M-del: a CHILD_SA deletion is only ever started for a reason. Plus m_sendfail (every transition re-executed once per datagram with that sendto() failing, timers, drain) and an ESP+AH connection in the give-up cases. Also: netlink answers left unread (recv failing after the request was carried out), two-fault linear cases, a restarted peer with INITIAL_CONTACT against five states of the old IKE_SA, foreign DELETEs naming the other protocol or deleting everything in one request."),
     'C08': dict(level='model_checking', technique=MC, engine='world-explorer',
                 text="Per exchange kind (IKE_AUTH, CREATE_CHILD_SA new/rekey/IKE rekey incl. the INVALID_KE retry, "
                      "INFORMATIONAL delete child/IKE, DPD) and initiating role: every schedule of deliver / duplicate / "
@@ -41,7 +41,7 @@ CHECKS = {
                      "kernel request refused (internal-error branches), and failing handshakes (wrong PSK / identity / "
                      "method, no proposal, TS unacceptable): every record at INFO or above and everything written to "
                      "stderr is searched for every secret the harness knows (PSK, SKEYSEED recomputed independently, "
-                     "SK_*, CHILD keys, DH secrets) raw, hex and repr; a verbose run proves the scanner finds each kind. Plus situations in which the daemon has something unusual to report (peer configured for another local address, PRF change across a rekey). Plus: texts of configuration errors for pre-shared keys of 12 shapes next to something broken elsewhere, and six peer-goes-silent situations (PSK and RSA)."),
+                     "SK_*, CHILD keys, DH secrets) raw, hex and repr; a verbose run proves the scanner finds each kind. Plus situations in which the daemon has something unusual to report (peer configured for another local address, PRF change across a rekey). Plus: texts of configuration errors for pre-shared keys of 12 shapes next to something broken elsewhere, and six peer-goes-silent situations (PSK and RSA). The real pyikev2.py run as a program over 24 configuration files; shutdown situations."),
     'C13': dict(level='fault_enumeration', technique="exhaustive enumeration of loss patterns, tick sequences and crash "
                 "points over deterministic runs of the two real daemons under a virtual clock", engine='world-explorer',
                 text="Every request kind (14, incl. COOKIE / INVALID_KE retries and the delete after an IKE rekey) x every "
@@ -52,14 +52,14 @@ CHECKS = {
                      "with answering, silent and colliding peers; peer crash after every step of a reference session; the answer "
                      "arriving in the very pass in which the timer of transmission k runs out; local send failures (every "
                      "subset of the retransmissions, and lasting); second copies of earlier answers while a retried request "
-                     "is outstanding. Sockets kept busy by strangers' IKE_SA_INIT requests, foreign kernel ACQUIREs and status queries while timers are due; request kinds with a sibling IKE_SA running the same exchange."),
+                     "is outstanding. Sockets kept busy by strangers' IKE_SA_INIT requests, foreign kernel ACQUIREs and status queries while timers are due; request kinds with a sibling IKE_SA running the same exchange. The fake select() honours its time-out argument."),
     'C03': dict(level='model_checking', technique=MC + "; exhaustive adversarial injection alphabet in every state", engine='world-explorer',
                 text="In every state of the one-trigger exploration (both roles, every request-outstanding state, REKEYED, "
                      "the rekeyed successor, half-open) and for every IKE_SA with keys: forged cleartext of every exchange "
                      "type x request/response x Message ID relative to the window x body, bit flips / truncations / "
                      "extension of authentic messages, the same plaintext under other keys, reflection - each injected "
                      "through main_loop on a fork; the endpoint's complete snapshot (state, counters, CHILD_SAs, timers, "
-                     "cached response, kernel SAD, netlink log) must be unchanged and nothing may be emitted. Every notification type the state machine reacts to is also injected alone in the clear (exchange x direction, expected ID). Every injection of every explored state is repeated on a world whose event loops are never left (harness/continuous.py); after the whole alphabet the session must continue as it does without it."),
+                     "cached response, kernel SAD, netlink log) must be unchanged and nothing may be emitted. Every notification type the state machine reacts to is also injected alone in the clear (exchange x direction, expected ID). Every injection of every explored state is repeated on a world whose event loops are never left (harness/continuous.py); after the whole alphabet the session must continue as it does without it. Injections may come from another source port (non-ESP marker cases)."),
     'C17': dict(level='fault_enumeration', technique="exhaustive injection of a hostile corpus and of send / netlink "
                 "failures at every position of a legitimate session run through the real main_loop", engine='world-explorer',
                 text="Before every step of a legitimate two-endpoint session (initial exchanges, new CHILD, CHILD rekey, "
@@ -98,7 +98,7 @@ CHECKS = {
                 text="64 valid base dictionaries x every single deviation (quick) / every pair (thorough) of missing "
                      "keys and ill-typed / out-of-range / unknown values at connection, auth and protect-entry level: "
                      "Configuration() either raises ConfigurationError or loads; well-typed loads are compared field by "
-                     "field with an independent reading (ref/confread.py). Plus: the Configuration object compared with the independent reading after every step of a session with all event kinds, look-up hits and misses on every loaded table (mixed families), non-RSA PEM keys, kinds of local addresses (link-local, loopback, unique-local)."),
+                     "field with an independent reading (ref/confread.py). Plus: the Configuration object compared with the independent reading after every step of a session with all event kinds, look-up hits and misses on every loaded table (mixed families), non-RSA PEM keys, kinds of local addresses (link-local, loopback, unique-local). IPv6 identities with a dotted quad; requests on the daemon's other address first."),
     'C06': dict(level='exploration', technique=EX + "; termination decided by an exact executed-event budget (sys.monitoring), not a timeout",
                 text="Complete enumeration of: every truncation and 5 mutations per octet of 31 authentic messages of all "
                      "exchange kinds (on the wire and on the plaintext, re-encrypted and re-MACed), every length / count "
@@ -123,13 +123,13 @@ CHECKS = {
                      "start-up == exactly out/in/fwd per entry, SAD empty, both empty after close(); ACQUIRE for every "
                      "outbound policy with flows at the corners of the entry, without / with an established IKE_SA / with "
                      "a sibling connection's IKE_SA: right peer, IKE_SA re-used, entry's proposal / mode / selectors / "
-                     "lifetime installed; unknown index ignored; restart of either daemon after every step of a session; an ACQUIRE in the pass after the IKE_SA with that peer was given up; entries differing in one selector dimension; an entry added / removed between two incarnations. ACQUIRE after a send failure on a childless IKE_SA and after a CHILD_SA rekey by either end; shutdown with a request outstanding."),
+                     "lifetime installed; unknown index ignored; restart of either daemon after every step of a session; an ACQUIRE in the pass after the IKE_SA with that peer was given up; entries differing in one selector dimension; an entry added / removed between two incarnations. ACQUIRE after a send failure on a childless IKE_SA and after a CHILD_SA rekey by either end; shutdown with a request outstanding. ACQUIRE while the IKE_SA waits for the answer to a liveness check or its own rekey; start-up with a kernel error at every request index."),
     'C18': dict(level='exploration', technique=EX,
                 text="Responder with 0..threshold+3 half-open IKE_SAs (threshold measured, not assumed) x request variants: "
                      "no cookie, exact cookie, every single-octet corruption, truncated / extended / empty, the exact cookie "
                      "with another SPI / nonce / (configured) source address, cookie lists; COOKIE-only reply, zero "
                      "DiffieHellman.from_group calls and unchanged table without the exact cookie. Initiator: COOKIE reply "
-                     "once / twice / after the real reply, retry byte-compared, session completes with mirror SAs. Plus several IKE_SA_INIT requests read in one pass of the loop (world event `together`), half-open IKE_SAs of any age, the cookie kept across an INVALID_KE_PAYLOAD retry."),
+                     "once / twice / after the real reply, retry byte-compared, session completes with mirror SAs. Plus several IKE_SA_INIT requests read in one pass of the loop (world event `together`), half-open IKE_SAs of any age, the cookie kept across an INVALID_KE_PAYLOAD retry. Local events between filling and probing; the repeated request gets the full retransmission budget."),
     'C01': dict(level='model_checking', technique="exhaustive enumeration of configuration pairs and negotiation histories "
                 "between two real endpoints; the two model SADs are compared after every negotiation", engine='world-explorer',
                 text="IKE suites, CHILD suites x modes (ESP/AH, with and without PFS), IPv4/IPv6 x PSK/RSA x initiator, all "
